@@ -50,6 +50,9 @@ def run(ctx: Ctx) -> None:
     ctx.floor("T13.ramp", 6)
     ctx.floor("T13.interp-flag", 20)
     ctx.floor("T13.sample", 12)
+    from ..tables import t10_flow
+    t10_flow.run_flow_sample(ctx)  # mechanism "vector rescaling on regridding" (FlowFields.sample)
+    ctx.floor("T10x.sample", 16)
     # (checked last so that semantic findings are reported even when the syntactic pairing pattern is no longer recognised)
     ctx.require(n_pairs >= 11, f"only {n_pairs} ImageBatch methods pair a tensor op with a Grid op (expected >= 11)")
 
